@@ -74,7 +74,9 @@ pub fn run(a: &Args) {
         let _ = nth;
         if op == 0x000b && script.get("reply").is_none() {
             let b = BLOCKING[rot % 10];
-            let printer = |state: i32, reasons: AV| AGroup { tag: 4, attrs: vec![("printer-state".into(), AV::Enum(state)), ("printer-state-reasons".into(), reasons), ("printer-name".into(), AV::Str("NameWithoutLanguage", "p".into()))] };
+            // the scripted printer answers what was asked for (a query that forgets printer-state-reasons gets none)
+            let asked = requested_attrs(&seen.body);
+            let printer = |state: i32, reasons: AV| AGroup { tag: 4, attrs: filter_requested(vec![("printer-state".into(), AV::Enum(state)), ("printer-state-reasons".into(), reasons), ("printer-name".into(), AV::Str("NameWithoutLanguage", "p".into()))], &asked) };
             match script["check"].as_str().unwrap_or("ready") {
                 "ready" => ok(ipp_response(0, rid, vec![printer(if rot % 2 == 0 { 3 } else { 4 }, AV::Str("Keyword", "none".into()))])),
                 "stopped" => ok(ipp_response(0, rid, vec![printer(5, AV::Str("Keyword", "none".into()))])),
